@@ -518,6 +518,9 @@ func (x *Extractor) Grammar(fi *core.FuncInfo, stream types.Object) []Node {
 		g = w.block(fi.Decl.Body.List)
 	}
 	x.cache[key] = g
+	if d := os.Getenv("WIRE_DUMP"); d != "" && strings.Contains(core.FuncName(fi.Obj), d) {
+		fmt.Fprintf(os.Stderr, "GRAMMAR %s\n%s\n", core.FuncName(fi.Obj), x.Dump(g, "  "))
+	}
 	return g
 }
 
@@ -728,6 +731,32 @@ func (w *walker) stmt(s ast.Stmt, rest []ast.Stmt) (nodes []Node, stop bool) {
 			return chain
 		}
 		chain := mkChain(v.Tag)
+		// a constant tag (the induction constant of an unrolled loop) selects its arm here
+		if v.Tag != nil {
+			if tv, ok := w.c.Info.Types[ast.Unparen(v.Tag)]; ok && tv.Value != nil {
+				sel := def
+				decided := true
+				found := false
+				for _, a := range arms {
+					for _, val := range a.vals {
+						cv, ok := w.c.Info.Types[val]
+						if !ok || cv.Value == nil {
+							decided = false
+							continue
+						}
+						if !found && constant.Compare(cv.Value, token.EQL, tv.Value) {
+							sel, found = a.body, true
+						}
+					}
+				}
+				if decided {
+					if hasEvents(sel) || hasControl(sel) {
+						out = append(out, sel...)
+					}
+					return out, false
+				}
+			}
+		}
 		// the tag is a local that holds a field except where one test replaced it by a constant
 		// (ver := this.Version; if C { ver = 1 }; switch ver {...}): under C the arm of that constant
 		// runs, otherwise the switch is on the field
@@ -758,6 +787,28 @@ func (w *walker) stmt(s ast.Stmt, rest []ast.Stmt) (nodes []Node, stop bool) {
 		if v.Init != nil {
 			ns, _ := w.stmt(v.Init, nil)
 			out = append(out, ns...)
+		}
+		// a loop whose induction variable runs over a few constants (for bit := 1; bit <= 4; bit <<= 1)
+		// is the sequence of its bodies, one per constant
+		if iv, vals := constInduction(w.c.Info, v); iv != nil {
+			var seq []Node
+			for _, k := range vals {
+				lit := &ast.BasicLit{ValuePos: v.Pos(), Kind: token.INT, Value: fmt.Sprint(k)}
+				w.c.Info.Types[lit] = types.TypeAndValue{Type: iv.Type(), Value: constant.MakeInt64(k)}
+				cp, ok := paths.Subst(w.c.Info, &ast.BlockStmt{Lbrace: v.Body.Lbrace, List: normalizeContinue(v.Body.List), Rbrace: v.Body.Rbrace}, map[types.Object]ast.Expr{iv: lit}).(*ast.BlockStmt)
+				if !ok {
+					seq = nil
+					break
+				}
+				if containsBreak(cp) {
+					seq = nil
+					break
+				}
+				seq = append(seq, w.block(cp.List)...)
+			}
+			if seq != nil {
+				return append(out, seq...), false
+			}
 		}
 		nb := &ast.BlockStmt{Lbrace: v.Body.Lbrace, List: normalizeContinue(v.Body.List), Rbrace: v.Body.Rbrace}
 		body := w.block(nb.List)
@@ -2291,4 +2342,170 @@ func (w *walker) overrideLocal(e ast.Expr) (ast.Expr, ast.Expr, constant.Value) 
 		fmt.Fprintf(os.Stderr, "overrideLocal %s: base=%s cond=%s k=%s\n", id.Name, types.ExprString(base), types.ExprString(cond), k)
 	}
 	return base, cond, k
+}
+
+// constInduction: `for i := C0; i <op> C1; <step>` with constant C0, C1 and a constant step (++, --,
+// += c, -= c, *= c, <<= c, >>= c), i not assigned in the body: the induction variable and the values it
+// takes (at most 16).
+func constInduction(info *types.Info, f *ast.ForStmt) (types.Object, []int64) {
+	init, ok := f.Init.(*ast.AssignStmt)
+	if !ok || len(init.Lhs) != 1 || len(init.Rhs) != 1 || init.Tok != token.DEFINE {
+		return nil, nil
+	}
+	id, ok := init.Lhs[0].(*ast.Ident)
+	if !ok {
+		return nil, nil
+	}
+	iv := info.ObjectOf(id)
+	if iv == nil {
+		return nil, nil
+	}
+	cint := func(e ast.Expr) (int64, bool) {
+		tv, ok := info.Types[e]
+		if !ok || tv.Value == nil {
+			return 0, false
+		}
+		return constant.Int64Val(constant.ToInt(tv.Value))
+	}
+	c0, ok := cint(init.Rhs[0])
+	if !ok {
+		return nil, nil
+	}
+	cond, ok := f.Cond.(*ast.BinaryExpr)
+	if !ok {
+		return nil, nil
+	}
+	cid, ok := ast.Unparen(cond.X).(*ast.Ident)
+	if !ok || info.ObjectOf(cid) != iv {
+		return nil, nil
+	}
+	c1, ok := cint(cond.Y)
+	if !ok {
+		return nil, nil
+	}
+	var step func(int64) (int64, bool)
+	switch p := f.Post.(type) {
+	case *ast.IncDecStmt:
+		pid, ok := p.X.(*ast.Ident)
+		if !ok || info.ObjectOf(pid) != iv {
+			return nil, nil
+		}
+		if p.Tok == token.INC {
+			step = func(x int64) (int64, bool) { return x + 1, true }
+		} else {
+			step = func(x int64) (int64, bool) { return x - 1, true }
+		}
+	case *ast.AssignStmt:
+		if len(p.Lhs) != 1 || len(p.Rhs) != 1 {
+			return nil, nil
+		}
+		pid, ok := p.Lhs[0].(*ast.Ident)
+		if !ok || info.ObjectOf(pid) != iv {
+			return nil, nil
+		}
+		c, ok := cint(p.Rhs[0])
+		if !ok {
+			return nil, nil
+		}
+		switch p.Tok {
+		case token.ADD_ASSIGN:
+			step = func(x int64) (int64, bool) { return x + c, true }
+		case token.SUB_ASSIGN:
+			step = func(x int64) (int64, bool) { return x - c, true }
+		case token.MUL_ASSIGN:
+			step = func(x int64) (int64, bool) { return x * c, true }
+		case token.SHL_ASSIGN:
+			step = func(x int64) (int64, bool) { return x << uint(c), c >= 0 && c < 63 }
+		case token.SHR_ASSIGN:
+			step = func(x int64) (int64, bool) { return x >> uint(c), c >= 0 && c < 63 }
+		default:
+			return nil, nil
+		}
+	default:
+		return nil, nil
+	}
+	// width of the variable's type (a byte counter wraps)
+	wrap := func(x int64) int64 { return x }
+	if b, ok := iv.Type().Underlying().(*types.Basic); ok {
+		switch b.Kind() {
+		case types.Uint8:
+			wrap = func(x int64) int64 { return x & 0xff }
+		case types.Int8:
+			wrap = func(x int64) int64 { return int64(int8(x)) }
+		case types.Uint16:
+			wrap = func(x int64) int64 { return x & 0xffff }
+		case types.Int16:
+			wrap = func(x int64) int64 { return int64(int16(x)) }
+		case types.Uint32:
+			wrap = func(x int64) int64 { return x & 0xffffffff }
+		case types.Int32:
+			wrap = func(x int64) int64 { return int64(int32(x)) }
+		}
+	}
+	assigned := false
+	ast.Inspect(f.Body, func(n ast.Node) bool {
+		switch v := n.(type) {
+		case *ast.AssignStmt:
+			for _, l := range v.Lhs {
+				if lid, ok := ast.Unparen(l).(*ast.Ident); ok && info.ObjectOf(lid) == iv {
+					assigned = true
+				}
+			}
+		case *ast.IncDecStmt:
+			if lid, ok := ast.Unparen(v.X).(*ast.Ident); ok && info.ObjectOf(lid) == iv {
+				assigned = true
+			}
+		case *ast.UnaryExpr:
+			if v.Op == token.AND {
+				if lid, ok := ast.Unparen(v.X).(*ast.Ident); ok && info.ObjectOf(lid) == iv {
+					assigned = true
+				}
+			}
+		}
+		return true
+	})
+	if assigned {
+		return nil, nil
+	}
+	holds := func(x int64) bool {
+		switch cond.Op {
+		case token.LSS:
+			return x < c1
+		case token.LEQ:
+			return x <= c1
+		case token.GTR:
+			return x > c1
+		case token.GEQ:
+			return x >= c1
+		case token.NEQ:
+			return x != c1
+		}
+		return false
+	}
+	switch cond.Op {
+	case token.LSS, token.LEQ, token.GTR, token.GEQ, token.NEQ:
+	default:
+		return nil, nil
+	}
+	var vals []int64
+	x := c0
+	for holds(x) {
+		vals = append(vals, x)
+		if len(vals) > 16 {
+			return nil, nil
+		}
+		nx, ok := step(x)
+		if !ok {
+			return nil, nil
+		}
+		nx = wrap(nx)
+		if nx == x {
+			return nil, nil
+		}
+		x = nx
+	}
+	if len(vals) == 0 {
+		return nil, nil
+	}
+	return iv, vals
 }
